@@ -28,6 +28,8 @@ type Hooks struct {
 	BeforeBlock func(i int, r *Run)
 	// Mutate may rewrite the unsigned transactions of block i.
 	Mutate func(i int, txs []Tx) []Tx
+	// AfterSetup runs once after the scripted scenario set-up (before the first scripted block).
+	AfterSetup func(r *Run)
 	// OnBlock observes the raw response of every block.
 	OnBlock func(i int, height int64, resp *abci.ResponseFinalizeBlock)
 }
@@ -72,6 +74,9 @@ func ExecuteWith(h Hooks, tweak func(*world.Config)) (out []BlockDigest, run *Ru
 	sc := NewScript(w)
 	sc.Setup()
 	run = &Run{Cfg: cfg, W: w, Script: sc, Height: 1, Time: w.Root.BlockTime()}
+	if h.AfterSetup != nil {
+		h.AfterSetup(run)
+	}
 	n := sc.Blocks()
 	if h.Blocks > 0 {
 		n = h.Blocks
